@@ -117,6 +117,11 @@ def run_property(prop, F, tier, seed, t0):
     try:
         mod = importlib.import_module(prop.lower())
         mod.run(F, rep)
+        if tier == 'thorough':
+            import selftest
+            st = selftest.run_all(prop, rep, seed)
+            rep.counts['selftest:mutants'] = len(st)
+            rep.counts['selftest:fired'] = sum(1 for r in st if r['status'] == 'fired')
     except AnchorLost as e:
         rep.ob('anchor', 'lost:%s' % str(e)[:80], False, 'anchor-lost: %s' % e)
     except Exception as e:
